@@ -338,6 +338,13 @@ def contains(I, st, container, item):
     if isinstance(container, HeapSeq):
         yield from container.contains(I, st, item)
         return
+    from .attrs import ObjDict as _ObjDict
+
+    if isinstance(container, _ObjDict):
+        if not isinstance(item, str):
+            raise Unsupported("`in` on __dict__ with a non-string key")
+        yield st, item in container.attrs(st)
+        return
     from .heap import HObj as _HObj
 
     if isinstance(container, _HObj) and container.cls is not None:
@@ -483,6 +490,16 @@ def getitem(I, st, obj, idx):
 
     if isinstance(obj, HeapSeq):
         yield from obj.getitem(I, st, idx)
+        return
+    from .attrs import ObjDict as _ObjDict
+
+    if isinstance(obj, _ObjDict):
+        if not isinstance(idx, str):
+            raise Unsupported("__dict__ subscript with a non-string key")
+        if idx in obj.attrs(st):
+            yield st, obj.attrs(st)[idx]
+        else:
+            yield st, exc("KeyError", idx)
         return
     if isinstance(obj, FrozenNd):
         obj = I.thaw(obj, st)
@@ -735,6 +752,14 @@ def setitem(I, st, obj, idx, v):
     if isinstance(obj, HeapSeq):
         yield from obj.setitem(I, st, idx, v)
         return
+    from .attrs import ObjDict as _ObjDict
+
+    if isinstance(obj, _ObjDict):
+        if not isinstance(idx, str):
+            raise Unsupported("__dict__ item assignment with a non-string key")
+        obj.attrs(st)[idx] = v
+        yield st, None
+        return
     if isinstance(obj, Ref):
         e = st.get(obj)
         if e.kind in ("list", "deque"):
@@ -810,6 +835,17 @@ def setitem(I, st, obj, idx, v):
 
 
 def delitem(I, st, obj, idx):
+    from .attrs import ObjDict as _ObjDict
+
+    if isinstance(obj, _ObjDict):
+        if isinstance(idx, str) and idx in obj.attrs(st):
+            del obj.attrs(st)[idx]
+            yield st, None
+        elif isinstance(idx, str):
+            yield st, exc("KeyError", idx)
+        else:
+            raise Unsupported("del on __dict__ with a non-string key")
+        return
     if isinstance(obj, Ref):
         e = st.get(obj)
         if e.kind == "dict":
@@ -908,6 +944,10 @@ def iterate(I, st, v):
         raise Unsupported("iteration over a heap sequence needs a loop invariant")
     if isinstance(v, EnumClassIter):
         return v.members
+    from .attrs import ObjDict as _ObjDict
+
+    if isinstance(v, _ObjDict):
+        return list(v.attrs(st))
     raise Unsupported("iteration over %r" % (v,))
 
 
